@@ -934,6 +934,8 @@ class ServerTls(Server):
                                  cafilepath=self.cafilepath,
                                 )
 
+            if ca in self.cxes and self.cxes[ca] is not incomer:
+                self.cxes[ca].shutdown()  # stale connection still in handshake
             self.cxes[ca] = incomer
 
     def serviceCxes(self):
@@ -943,6 +945,8 @@ class ServerTls(Server):
         """
         for ca, cx in self.cxes.items():
             if cx.serviceHandshake():
+                if ca in self.ixes and self.ixes[ca] is not cx:
+                    self.shutdownIx(ca)  # stale connection from same address
                 self.ixes[ca] = cx
                 del self.cxes[ca]
 
